@@ -474,11 +474,12 @@ def _model_scenario(rng):
         if rng.random() < 0.5:
             setup.append("setup put %s %s" % (rng.choice(keys), rng.choice(vals)))
     writers, th = set(), []
+    same_key_writers = rng.random() < 0.3        # several writers of one key: the key lock makes the later one wait (a step of a blocked thread is a no-op of the model)
     for i in range(rng.randint(2, 4)):
         kind = rng.choice(("put", "put", "get", "get", "remove", "has", "size", "flush"))
         k = rng.choice(keys)
         if kind in ("put", "remove"):
-            cand = [x for x in keys if x not in writers]
+            cand = keys if same_key_writers else [x for x in keys if x not in writers]
             if not cand:
                 kind = "get"
             else:
@@ -545,7 +546,10 @@ def _model_case(txt, r):
                 calls.append("QIgcCycle %s" % ("true" if f[3] != "0" else "false"))
             else:
                 return None
-    if r["stuck"] or r.get("quiet_timeouts", 1) or r.get("unfinished_at_free_run", 1):
+    wkeys = collections.Counter(l.split()[3] for l in txt.split("\n") if l.startswith("thread ") and l.split()[2] in ("put", "remove"))
+    lock_waiters = {l.split()[1] for l in txt.split("\n") if l.startswith("thread ") and l.split()[2] in ("put", "remove") and wkeys[l.split()[3]] > 1}
+    by_design = all(n in lock_waiters for n in r.get("quiet_threads", ["?"]))     # a writer waiting for the key lock is blocked, not slow: the log is still the order of the steps
+    if r["stuck"] or (r.get("quiet_timeouts", 1) and not by_design) or r.get("unfinished_at_free_run", 1):
         return None      # a thread ran concurrently with the next one (slow machine): the event log is no longer the order of the atomic steps
     idx = {n: i for i, n in enumerate(names)}
     sched = []
@@ -1324,7 +1328,7 @@ def project(term, keep):
 SKEL_GOALS = {
     "C12": "wf_C12 skel_Store_Flush skel_Store_flushTick",
     "C17": "wf_C17 skel_Store_Close skel_Store_run skel_primaryGC_run skel_primaryGC_close skel_MultihashPrimary_Close skel_Index_garbageCollector skel_Index_Close",
-    "C05": "wf_C05 skel_Index_Put skel_Index_update skel_Index_remove skel_Index_Get skel_Index_Flush skel_MultihashPrimary_Flush skel_Store_commit",
+    "C05": "wf_C05 skel_Index_Put skel_Index_update skel_Index_remove skel_Index_Get skel_Index_Flush skel_MultihashPrimary_Flush skel_Store_commit skel_Store_Put skel_Store_Remove",
     "C14": "wf_C14 [skel_FileCache_Open; skel_FileCache_Close; skel_FileCache_Remove; skel_FileCache_Clear; skel_FileCache_SetCacheSize; skel_FileCache_Len; skel_FileCache_Cap]",
 }
 
